@@ -1,8 +1,8 @@
 """C18 - used-timezone discovery is complete; adding missing timezones closes it.
 
-E-enum + E-hist: calendars = every subset of <=3 of 11 placements of zoned values (DTSTART, DTEND, DUE,
+E-enum + E-hist: calendars = every subset of <=3 of 12 placements of zoned values (DTSTART, DTEND, DUE,
 RECURRENCE-ID, two RDATE lines with different zones, EXDATE, FREEBUSY, a DATE-TIME TRIGGER in a nested alarm, a DTSTART
-at depth 3 inside unknown components, an X- property) x every subset of 6 pre-existing VTIMEZONEs (used, the same one
+at depth 3 inside unknown components, an X- property, an explicit TZID=UTC) x every subset of 6 pre-existing VTIMEZONEs (used, the same one
 again, unused known, definition of the unknown used id, unused unknown id, VTIMEZONE without TZID), built by parsing
 text and through the API, under both providers; then the history get_used, get_missing, add_missing x 3.
 Reference = set comprehension over the placements (independent of the library's traversal).
@@ -27,13 +27,15 @@ PLACEMENTS = {
     "P3": ("VTODO", ["DUE;TZID=%s:20240601T100000" % A], {A}),
     "P4": ("VEVENT", ["RECURRENCE-ID;TZID=%s:20240601T100000" % C], {C}),
     "P5": ("VEVENT", ["RDATE;TZID=%s:20240602T100000,20240603T100000" % A, "RDATE;TZID=%s:20240604T100000" % B], {A, B}),
-    "P6": ("VEVENT", ["EXDATE;TZID=%s:20240602T100000" % B], {B}),
+    "P6": ("VEVENT", ["EXDATE;tzid=%s:20240602T100000" % B], {B}),  # parameter names are caseless
     "P7": ("VFREEBUSY", ["FREEBUSY;TZID=%s:20240601T100000/PT1H,20240601T130000/20240601T140000" % A], {A}),
     "P8": ("VEVENT/VALARM", ["TRIGGER;VALUE=DATE-TIME;TZID=%s:20240601T093000" % B], {B}),
     "P9": ("VEVENT/X-COMP/X-INNER", ["DTSTART;TZID=%s:20240601T100000" % D], {D}),
     "P10": ("VJOURNAL", ["X-FOO;TZID=%s:bar" % A], {A}),
     # an "unclean" id the provider resolves after stripping the slash: the VTIMEZONE must carry the id as used
     "P11": ("VEVENT", ["EXDATE;TZID=/%s:20240605T100000" % D], {"/" + D}),
+    # an explicit TZID=UTC parameter is a TZID parameter like any other (the provider knows UTC)
+    "P12": ("VTODO", ["DTSTART;TZID=UTC:20240601T080000"], {"UTC"}),
 }
 PRESETS = ("tzA", "tzA2", "tzT", "tzC", "tzX", "tzNoId")
 
@@ -144,6 +146,8 @@ def build_api(placements, presets):
             c.add("x-foo", "bar", parameters={"TZID": A})
         elif p == "P11":
             c.add("exdate", [datetime(2024, 6, 5, 10)], parameters={"TZID": "/" + D})
+        elif p == "P12":
+            c.add("dtstart", datetime(2024, 6, 1, 8), parameters={"TZID": "UTC"})
     return cal
 
 
@@ -230,8 +234,8 @@ replay = run_case
 
 def run(ctx):
     maxp = 3
-    ctx.rule = (f"E-enum: every subset of <={maxp} of 11 zoned-value placements (depth 1-3, incl. two RDATE lines with "
-                "different zones, FREEBUSY periods, a zoned TRIGGER in a nested alarm, an X- property) x every subset of 6 "
+    ctx.rule = (f"E-enum: every subset of <={maxp} of 12 zoned-value placements (depth 1-3, incl. two RDATE lines with "
+                "different zones, FREEBUSY periods, a zoned TRIGGER in a nested alarm, an X- property, an explicit TZID=UTC) x every subset of 6 "
                 "pre-existing VTIMEZONEs (quick: triples only with 0, 1 or all 6 of them) x {parsed text, API-built} under zoneinfo; under pytz all subsets of <=2 placements x "
                 "all VTIMEZONE subsets (parsed) ; then get_used, get_missing, 3 x add_missing_timezones (window 2024; default "
                 "window for single placements). non-trivial = some zone used and (a VTIMEZONE present or something missing).")
